@@ -24,38 +24,82 @@ Print Assumptions C06_split_ws_joined.
 
 (* ---- writer then reader ---- *)
 
-(* the full claim: every valid formula, any header, any variable names, both
-   newline conventions of the reader (StringIO / file in text mode) *)
-Definition dimacs_roundtrip_statement : Prop :=
-  forall u h names n F, valid n F -> printable n -> printable (len F) ->
-    parse_dimacs u (print_dimacs h names n F) = DOk n F.
-
-(* proved for headers and names without a line break inside a field
-   (with or without header, with or without names, empty formula, empty clauses,
-   unused variables: all are instances) *)
-Theorem dimacs_roundtrip_partial : forall u h names n F,
+(* print_dimacs is to_dimacs_file as it is now (after commit 7278321: every header
+   field and every variable name goes through _within_comment).
+   The full claim: every valid formula, ANY header, ANY variable names (line
+   breaks "\n", "\r", "\r\n" included), both newline conventions of the reader
+   (StringIO / file in text mode) *)
+Theorem dimacs_roundtrip : forall u h names n F,
   valid n F -> printable n -> printable (len F) ->
-  header_ok h = true -> names_ok names = true ->
   parse_dimacs u (print_dimacs h names n F) = DOk n F.
 Proof. exact dimacs_roundtrip_proved. Qed.
-Print Assumptions dimacs_roundtrip_partial.
+Print Assumptions dimacs_roundtrip.
 
 Example dimacs_roundtrip_nonvacuous :
-  let h := Some [(lit "description", lit "a formula: with % odd chars"); (lit "url", lit "")] in
-  let names := Some [lit "x_{1,2}"; lit "c p cnf 1 1"; lit ""] in
+  let h := Some [(lit "description", [ "x"%char; LF; "y"%char; CR; LF; "1"%char; " "%char; "0"%char; CR ]);
+                 (lit "a formula: with % odd chars", lit ""); ([ "k"%char; CR; "p"%char ], lit "v")] in
+  let names := Some [lit "x_{1,2}"; lit "c p cnf 1 1"; lit ""; [ "a"%char; LF; "1"%char; CR; CR; LF ]] in
   let F := [[1; -2]; []; [3]; [-3; -3; 1]] in
-  valid 4 F /\ printable 4 /\ header_ok h = true /\ names_ok names = true /\
+  valid 4 F /\ printable 4 /\ header_ok h = false /\ names_ok names = false /\
   parse_dimacs false (print_dimacs h names 4 F) = DOk 4 F /\
+  parse_dimacs true (print_dimacs h names 4 F) = DOk 4 F /\
   parse_dimacs true (print_dimacs None None 0 []) = DOk 0 [].
 Proof.
-  cbv zeta. split; [|split; [apply printable_million; vm_compute; discriminate | vm_compute; auto]].
+  cbv zeta. split; [|split; [apply printable_million; vm_compute; discriminate | vm_compute; repeat split]].
   split; [discriminate|]. unfold lit_in.
   repeat constructor; vm_compute; discriminate.
 Qed.
 
-(* without the restriction the claim is false: a line break in the description
-   ends the comment (the writer copies the value as it is) ... *)
-Theorem dimacs_header_newline_refuted : ~ dimacs_roundtrip_statement.
+(* what _within_comment writes, byte for byte, on the three kinds of line break *)
+Example ex_within_comment_bytes :
+  within_comment (lit "c ") ([ "a"%char; CR; LF; "b"%char; CR; "c"%char; LF; LF; "d"%char; CR ]) =
+  [ "a"%char; LF ] ++ lit "c b" ++ [LF] ++ lit "c c" ++ [LF] ++ lit "c " ++ [LF] ++ lit "c d" ++ [LF] ++ lit "c ".
+Proof. vm_compute. reflexivity. Qed.
+
+(* ---- shape of the output ---- *)
+
+(* the lines of the output are: comment lines, ONE problem line whose tokens are
+   p, cnf, the number of variables and the true number of clauses, then one data
+   line per clause -- for every header and every list of names.
+   (That n bounds the literals is `valid`: property C10.)
+   comment_lines = the lines of the comment part of the text *)
+Theorem print_shape : forall u h names n F,
+  read_lines u (print_dimacs h names n F) =
+    comment_lines h names ++ spec_line n (len F) :: map clause_line F /\
+  Forall (fun l => line_kind l = KComment) (comment_lines h names) /\
+  line_kind (spec_line n (len F)) = KSpec /\
+  split_ws (spec_line n (len F)) = [lit "p"; lit "cnf"; print_Z n; print_Z (len F)] /\
+  Forall (fun l => line_kind l = KData) (map clause_line F).
+Proof. exact print_shape_proved. Qed.
+Print Assumptions print_shape.
+
+(* the comment lines are one per header field, "c", one per name, "c" -- each
+   field copied as it is -- when no field or name has a line break; on such
+   inputs the repair changed no byte of the output *)
+Theorem print_dimacs_unchanged : forall h names n F,
+  header_ok h = true -> names_ok names = true ->
+  print_dimacs h names n F = print_dimacs_as_found h names n F /\
+  comment_lines h names = comment_lines_as_found h names.
+Proof. exact DimacsFacts.print_dimacs_unchanged. Qed.
+Print Assumptions print_dimacs_unchanged.
+
+(* ---- the writer as it was found (before commit 7278321; defect D4) ---- *)
+
+Definition dimacs_roundtrip_as_found_statement : Prop :=
+  forall u h names n F, valid n F -> printable n -> printable (len F) ->
+    parse_dimacs u (print_dimacs_as_found h names n F) = DOk n F.
+
+(* what held of it: headers and names without a line break inside a field *)
+Theorem dimacs_roundtrip_as_found_partial : forall u h names n F,
+  valid n F -> printable n -> printable (len F) ->
+  header_ok h = true -> names_ok names = true ->
+  parse_dimacs u (print_dimacs_as_found h names n F) = DOk n F.
+Proof. exact dimacs_roundtrip_as_found_proved. Qed.
+Print Assumptions dimacs_roundtrip_as_found_partial.
+
+(* without the restriction the claim was false: a line break in the description
+   ended the comment (the writer copied the value as it was) ... *)
+Theorem dimacs_header_newline_refuted : ~ dimacs_roundtrip_as_found_statement.
 Proof.
   intros H.
   specialize (H false (Some [(lit "description", [ "x"%char; LF; "y"%char ])]) None 1 [[1]]).
@@ -65,51 +109,53 @@ Proof.
 Qed.
 Print Assumptions dimacs_header_newline_refuted.
 
-(* ... and so does a lone carriage return when the text is read from a file,
+(* ... and so did a lone carriage return when the text is read from a file,
    or a line break in a variable name *)
 Theorem dimacs_header_cr_refuted : exists h,
-  parse_dimacs false (print_dimacs (Some h) None 1 [[1]]) = DOk 1 [[1]] /\
-  parse_dimacs true (print_dimacs (Some h) None 1 [[1]]) = Err DataBeforeSpec 2.
+  parse_dimacs false (print_dimacs_as_found (Some h) None 1 [[1]]) = DOk 1 [[1]] /\
+  parse_dimacs true (print_dimacs_as_found (Some h) None 1 [[1]]) = Err DataBeforeSpec 2.
 Proof. exists [(lit "description", [ "x"%char; CR; "y"%char ])]. vm_compute. auto. Qed.
 Print Assumptions dimacs_header_cr_refuted.
 
 Theorem dimacs_name_newline_refuted : exists names,
-  parse_dimacs false (print_dimacs None (Some names) 1 [[1]]) = Err DataBeforeSpec 2.
+  parse_dimacs false (print_dimacs_as_found None (Some names) 1 [[1]]) = Err DataBeforeSpec 2.
 Proof. exists [[ "a"%char; LF; "1"%char ]]. vm_compute. reflexivity. Qed.
 Print Assumptions dimacs_name_newline_refuted.
 
-(* ---- shape of the output ---- *)
-
-(* the lines of the output are: comment lines, ONE problem line whose tokens are
-   p, cnf, the number of variables and the true number of clauses, then one data
-   line per clause.  (That n bounds the literals is `valid`: property C10.) *)
-Definition print_shape_statement : Prop :=
+Definition print_shape_as_found_statement : Prop :=
   forall u h names n F,
-  read_lines u (print_dimacs h names n F) =
-    comment_lines h names ++ spec_line n (len F) :: map clause_line F /\
-  Forall (fun l => line_kind l = KComment) (comment_lines h names) /\
+  read_lines u (print_dimacs_as_found h names n F) =
+    comment_lines_as_found h names ++ spec_line n (len F) :: map clause_line F /\
+  Forall (fun l => line_kind l = KComment) (comment_lines_as_found h names) /\
   line_kind (spec_line n (len F)) = KSpec /\
   split_ws (spec_line n (len F)) = [lit "p"; lit "cnf"; print_Z n; print_Z (len F)] /\
   Forall (fun l => line_kind l = KData) (map clause_line F).
 
-Theorem print_shape_partial : forall u h names n F,
+Theorem print_shape_as_found_partial : forall u h names n F,
   header_ok h = true -> names_ok names = true ->
-  read_lines u (print_dimacs h names n F) =
-    comment_lines h names ++ spec_line n (len F) :: map clause_line F /\
-  Forall (fun l => line_kind l = KComment) (comment_lines h names) /\
+  read_lines u (print_dimacs_as_found h names n F) =
+    comment_lines_as_found h names ++ spec_line n (len F) :: map clause_line F /\
+  Forall (fun l => line_kind l = KComment) (comment_lines_as_found h names) /\
   line_kind (spec_line n (len F)) = KSpec /\
   split_ws (spec_line n (len F)) = [lit "p"; lit "cnf"; print_Z n; print_Z (len F)] /\
   Forall (fun l => line_kind l = KData) (map clause_line F).
-Proof. exact print_shape_proved. Qed.
-Print Assumptions print_shape_partial.
+Proof. exact print_shape_as_found_proved. Qed.
+Print Assumptions print_shape_as_found_partial.
 
-Theorem print_shape_refuted : ~ print_shape_statement.
+Theorem print_shape_refuted : ~ print_shape_as_found_statement.
 Proof.
   intros H.
   specialize (H false (Some [(lit "description", [ "x"%char; LF; "y"%char ])]) None 1 [[1]]).
   destruct H as [H _]. vm_compute in H. discriminate H.
 Qed.
 Print Assumptions print_shape_refuted.
+
+(* on the very inputs of the refutations the repaired writer is read back *)
+Example ex_dimacs_refutation_inputs_repaired :
+  (forall u, parse_dimacs u (print_dimacs (Some [(lit "description", [ "x"%char; LF; "y"%char ])]) None 1 [[1]]) = DOk 1 [[1]]) /\
+  (forall u, parse_dimacs u (print_dimacs (Some [(lit "description", [ "x"%char; CR; "y"%char ])]) None 1 [[1]]) = DOk 1 [[1]]) /\
+  (forall u, parse_dimacs u (print_dimacs None (Some [[ "a"%char; LF; "1"%char ]]) 1 [[1]]) = DOk 1 [[1]]).
+Proof. repeat split; intros [|]; vm_compute; reflexivity. Qed.
 
 (* ---- the reader, for EVERY text and both newline conventions ---- *)
 
